@@ -227,6 +227,21 @@ def r11_2(ctx):
         tree = o._def(d, 0, ())
         bb = d[0]
         uses_table = any(n.kind == "const" and n.a.fn_item() and n.a.fn_item().endswith("byte_to_ascii") for n in tree.walk())
+        root = peel(tree)
+        if not uses_table and root.kind == "call" and method_name(root.a) in ("String::new", "String::with_capacity") and root.at is not None:
+            # explicit form: `for byte in bytes { out.push_str(&byte_to_ascii(byte)) }`
+            from .c16 import mut_calls
+            local = f.blocks[root.at[0]]["term"]["dest"]["l"]
+            muts = mut_calls(f, local)
+            ok_all = bool(muts)
+            for mb, mt in muts:
+                arg = o.operand(mt["args"][1]) if len(mt["args"]) > 1 else None
+                via = arg is not None and any(n.kind == "call" and n.a.endswith("byte_to_ascii") for n in arg.walk()) and \
+                    any(n.kind == "call" and method_name(n.a) == "Iterator::next" for n in arg.walk()) and any(n.kind == "arg" and n.a == 1 for n in arg.walk()) and \
+                    not any(n.kind == "call" and method_name(n.a) in ("Iterator::skip", "Iterator::take", "Iterator::filter", "Iterator::step_by") for n in arg.walk())
+                if mname(mt) != "String::push_str" or not via:
+                    ok_all = False
+            uses_table = ok_all
         raw = tree.has_call("String::from_utf8_lossy", "String::from_utf8", "str::from_utf8")
         on_true = bb in f.reachable(t_true) and bb not in f.reachable(0, removed_edges=[(gb, t_true)])
         on_false = bb in f.reachable(t_false) and bb not in f.reachable(0, removed_edges=[(gb, t_false)])
